@@ -495,6 +495,12 @@ def finish(res, level="other", explanation="", checker_cmd=None,
         ev["level"] = "other"
     with open(os.path.join(EVID, "%s.json" % res.prop), "w") as fh:
         json.dump(ev, fh, indent=1, sort_keys=True)
+    try:
+        os.makedirs(BUILD, exist_ok=True)
+        with open(os.path.join(BUILD, "last_%s_%s.json" % (res.prop, tier)), "w") as fh:
+            json.dump(res.inst, fh)
+    except OSError:
+        pass
     print("property=%s tier=%s instances=%d HOLDS=%d REFUTED=%d (known=%d) "
           "UNDECIDED=%d MISSING=%d wall=%.1fs" % (
               res.prop, tier, obligations, c[HOLDS], c[REFUTED],
